@@ -39,6 +39,7 @@ VERUS_TOOLCHAIN = '1.98.1-x86_64-unknown-linux-gnu'
 
 VIOLATION_KINDS = [
     ('postcondition not satisfied', 'postcondition'),
+    ('unable to prove post-condition of closure', 'postcondition'),
     ('precondition not satisfied', 'precondition'),
     ('assertion failed', 'assertion'),
     ('possible arithmetic underflow/overflow', 'overflow'),
